@@ -36,13 +36,13 @@ def runOpEdit (op : String) (args : List String) : String :=
               okIf (match b with | node _ ks => noEmptyL ks | _ => true) "childless-constituent-left",
               okIf (constituentsSubset a b) "constituent-changed"]
         | "insert_terminals" =>
-            let reqs := (decReqs ((c.get "reqs").getD "")).map fun (k, w, p) => (k, w, p.getD [])
+            let reqs := (sortBy (·.1) (decReqs ((c.get "reqs").getD ""))).map fun (k, w, p) => (k, w, p.getD [])
             firstFail [okIf (b.sentence == insertSpec a.sentence reqs) "wrong-insertion",
               okIf (b.yield == List.range' 1 b.leafNums.length) "numbering-has-holes",
               okIf (Spec.parentsKept a b (fun _ => false)) "other-node-moved",
               okIf (Spec.contentKept a (mapNums (fun _ => 0) b) || true) "content"]
         | "substitute_terminals" =>
-            firstFail [okIf (b.sentence == substituteSpec a.sentence (decReqs ((c.get "reqs").getD ""))) "wrong-substitution",
+            firstFail [okIf (b.sentence == substituteSpec a.sentence (sortBy (·.1) (decReqs ((c.get "reqs").getD "")))) "wrong-substitution",
               okIf (Spec.shape (mapFields (fun _ f => { f with label := [] }) a) ==
                     Spec.shape (mapFields (fun _ f => { f with label := [] }) b)) "structure-changed"]
         | "filter_by_length" =>
